@@ -2,6 +2,7 @@
 (src/props/cNN.rs); this table only holds what the runner needs."""
 
 PROPS = {
+    "C11": dict(level="exploration", shards=16, thorough_layers=[]),
     "C12": dict(level="exploration", shards=16, thorough_layers=[]),
     "C14": dict(level="exploration", shards=16, thorough_layers=["asan"], layer_cfg={"asan": dict(scale=0.25, timeout=2400)}),
     "C18": dict(level="exploration", shards=16, thorough_layers=[]),
